@@ -117,3 +117,73 @@ def runAll (I : Inner) (given : Option Name) (force : Bool) (cs : List (List Nat
   r.2 ++ (step I r.1 [] true).2
 
 end CssVerif.Codec
+
+/-! ## `codec.IncrementalEncoder` (`codec.py:348-424`) and one-shot `encode` (`:265-276`) -/
+namespace CssVerif.Codec
+
+structure InnerEnc where
+  /-- all bytes produced after consuming `text` with encoding `enc` -/
+  out : Name → List Nat → Bool → List Nat
+  mono : ∀ e a b f, ∃ ext, out e (a ++ b) f = out e a false ++ ext
+  out_nil : ∀ e, out e [] false = []
+
+/-- `encoding.replace("_", "-").lower() == "utf-8-sig"` -/
+def isSig (e : Name) : Bool := normName e = utf8sigName
+
+/-- the encoding the encoders take from the text: `detectencoding_unicode(input, final)[0]`, and since
+fix 6ff2a72 `"utf-8"` when that is `None` at the end of the data (`codec.py` encode / IncrementalEncoder.encode) -/
+def detU (l : List Nat) (final : Bool) : Option Name :=
+  match detectUnicode l final with
+  | some d => some d.1.name
+  | none => if final then some utf8Name else none
+
+/-- `detU l true` as a total function -/
+def detUFinal (l : List Nat) : Name :=
+  match detectUnicode l true with
+  | some d => d.1.name
+  | none => utf8Name
+
+/-- one-shot `encode(input, encoding=given)` -/
+def encodeOneShot (I : InnerEnc) (given : Option Name) (input : List Nat) : List Nat :=
+  match given with
+  | some g => I.out g (fixFinal input g) true
+  | none =>
+    let E := detUFinal input
+    I.out E (if isSig E then fixFinal input utf8Name else input) true
+
+inductive ESt where
+  | waiting (given : Option Name) (buf : List Nat)
+  | encoding (E : Name) (consumed : List Nat)
+
+def feedEnc (I : InnerEnc) (E : Name) (consumed input : List Nat) (final : Bool) : List Nat :=
+  (I.out E (consumed ++ input) final).drop (I.out E consumed false).length
+
+/-- `IncrementalEncoder.encode(input, final)` -/
+def estep (I : InnerEnc) : ESt → List Nat → Bool → ESt × List Nat
+  | .waiting (some g) buf, input, final =>
+    match fixEncoding (buf ++ input) g final with
+    | none => (.waiting (some g) (buf ++ input), [])
+    | some t =>
+      let t' := if isSig g then fixFinal t utf8Name else t
+      (.encoding g t', feedEnc I g [] t' final)
+  | .waiting none buf, input, final =>
+    match detU (buf ++ input) final with
+    | none => (.waiting none (buf ++ input), [])
+    | some E =>
+      let t' := if isSig E then fixFinal (buf ++ input) utf8Name else buf ++ input
+      (.encoding E t', feedEnc I E [] t' final)
+  | .encoding E c, input, final => (.encoding E (c ++ input), feedEnc I E c input final)
+
+def erunChunks (I : InnerEnc) : ESt → List (List Nat) → ESt × List Nat
+  | s, [] => (s, [])
+  | s, c :: cs =>
+    let r := estep I s c false
+    let r' := erunChunks I r.1 cs
+    (r'.1, r.2 ++ r'.2)
+
+/-- `iterencode`: all chunks non-final, then `encode("", True)` -/
+def erunAll (I : InnerEnc) (given : Option Name) (cs : List (List Nat)) : List Nat :=
+  let r := erunChunks I (.waiting given []) cs
+  r.2 ++ (estep I r.1 [] true).2
+
+end CssVerif.Codec
